@@ -15,6 +15,9 @@
 #include "Enum/ECalcVario.hpp"
 #include "Enum/EKrigOpt.hpp"
 #include "Estimation/CalcKriging.hpp"
+#include "Estimation/KrigingCalcul.hpp"
+#include "Covariances/CovAniso.hpp"
+#include "Covariances/CovContext.hpp"
 #include "Matrix/MatrixRectangular.hpp"
 #include "Matrix/MatrixSparse.hpp"
 #include "Matrix/MatrixSquareSymmetric.hpp"
@@ -88,8 +91,8 @@ std::string readBack(const World& W)
 
 // ---------------------------------------------------------------- observed calls
 const char* OBS10[] = {"covmat", "covmat-optim", "covmat-symoptim", "kriging", "xvalid", "vario", "vario-fit", "migrate", "frombox", "addrandom",
-                       "simgauss", "simtub", "simtub-nc", "simfft"};
-const int NOBS10 = 14;
+                       "simgauss", "simtub", "simtub-nc", "simfft", "kcalc", "kcalc", "kriging"};
+const int NOBS10 = 17;
 const char* OBS13[] = {"simtub", "simtub-nc", "simfft", "gibbs", "simtub", "simtub-nc"};
 const int NOBS13 = 6;
 
@@ -102,7 +105,7 @@ struct Observed
 };
 
 // executes the observed call on W (or on clones for the "other seed" variant); returns digest
-Observed observe(World& W, const Op& op, int seedShift, Ctx* c, bool judge13)
+Observed observe(World& W, const Op& op, int seedShift, Ctx* c, bool judge13, long route = 0)
 {
   Observed o;
   const std::string k = op.S(0, "covmat");
@@ -114,6 +117,115 @@ Observed observe(World& W, const Op& op, int seedShift, Ctx* c, bool judge13)
     if (k == "covmat") { MatrixRectangular m = W.model->evalCovMatrix(W.dbin, a % 2 ? W.dbout : nullptr); digestMatrix(d, m); }
     else if (k == "covmat-optim") { MatrixRectangular m = W.model->evalCovMatrixOptim(W.dbin, a % 2 ? W.dbout : nullptr); digestMatrix(d, m); }
     else { MatrixSquareSymmetric m = W.model->evalCovMatrixSymmetricOptim(W.dbin); digestMatrix(d, m); }
+    o.digest = d.hex();
+    return o;
+  }
+  if (k == "kcalc")
+  {
+    // KrigingCalcul: lazily computed matrices with a hand-written invalidation graph. route 0: a fresh object
+    // given its inputs once; route > 0: the same final inputs reached through a seeded sequence of updates
+    // interleaved with getters ("an object updated incrementally answers as a freshly built one")
+    int n = W.dbin->getSampleNumber(true);
+    int nt = std::min(4, W.dbout->getSampleNumber());
+    MatrixSquareSymmetric Sigma = W.model->evalCovMatrixSymmetric(W.dbin);
+    VectorInt tg;
+    for (int i = 0; i < W.dbout->getSampleNumber() && (int)tg.size() < 4; i++) if (W.dbout->isActive(i)) tg.push_back(i);
+    nt = (int)tg.size();
+    if (nt < 1) { o.digest = "kcalc-skip"; return o; }
+    MatrixRectangular Sigma0 = W.model->evalCovMatrix(W.dbin, W.dbout, -1, -1, VectorInt(), tg);
+    MatrixRectangular S00r = W.model->evalCovMatrix(W.dbout, W.dbout, -1, -1, tg, tg);
+    if (S00r.getNRows() != nt || S00r.getNCols() != nt) { o.digest = "kcalc-skip"; return o; }
+    MatrixSquareSymmetric Sigma00(nt);
+    for (int i = 0; i < nt; i++) for (int j = 0; j <= i; j++) Sigma00.setValue(i, j, S00r.getValue(i, j));
+    n = Sigma.getNRows();
+    if (n < 3 || Sigma0.getNRows() != n || Sigma0.getNCols() != nt) { o.digest = "kcalc-skip"; return o; }
+    bool withDrift = a % 2 == 0;
+    int nbfl = withDrift ? 1 + b % 2 : 0;
+    MatrixRectangular X(n, std::max(nbfl, 1)), X0(nt, std::max(nbfl, 1));
+    VectorInt act = W.dbin->getRanksActive();
+    VectorDouble Z(n);
+    {
+      int row = 0;
+      for (int ie = 0; ie < W.dbin->getSampleNumber() && row < n; ie++)
+      {
+        if (!W.dbin->isActive(ie) || isUndef(W.dbin->getZVariable(ie, 0))) continue;
+        Z[row] = W.dbin->getZVariable(ie, 0);
+        X.setValue(row, 0, 1.);
+        if (nbfl > 1) X.setValue(row, 1, W.dbin->getCoordinate(ie, 0));
+        row++;
+      }
+      for (int it = 0; it < nt; it++) { X0.setValue(it, 0, 1.); if (nbfl > 1) X0.setValue(it, 1, W.dbout->getCoordinate(tg[it], 0)); }
+    }
+    VectorDouble means = {10.};
+    // alternates (other inputs of the same shapes) used by the incremental route
+    VectorDouble Z2 = Z;
+    for (auto& z : Z2) z = 2. * z + 1.;
+    MatrixSquareSymmetric SigmaB = Sigma;
+    SigmaB.prodScalar(1.5);
+    SigmaB.addScalarDiag(0.7);
+    MatrixRectangular Sigma0B = Sigma0;
+    Sigma0B.prodScalar(0.5);
+    MatrixSquareSymmetric Sigma00B = Sigma00;
+    Sigma00B.addScalarDiag(1.);
+    VectorDouble means2 = {3.};
+    auto collect = [&](KrigingCalcul& K) {
+      d.vd(K.getEstimation());
+      d.vd(K.getStdv());
+      d.vd(K.getVarianceZstar());
+      if (withDrift) d.vd(K.getPostMean());
+      const MatrixRectangular* L = K.getLambda();
+      if (L) digestMatrix(d, *L);
+      if (withDrift) { const MatrixRectangular* Mu = K.getMu(); if (Mu) digestMatrix(d, *Mu); }
+    };
+    const MatrixRectangular* Xp = withDrift ? &X : nullptr;
+    const MatrixRectangular* X0p = withDrift ? &X0 : nullptr;
+    const VectorDouble* mp = withDrift ? nullptr : &means;
+    KrigingCalcul K(false);
+    if (route == 0)
+    {
+      K.setLHS(&Sigma, Xp);
+      K.setRHS(&Sigma0, X0p);
+      K.setVar(&Sigma00);
+      K.setData(&Z, mp);
+    }
+    else
+    {
+      Rng rr((uint64_t)route * 7919 + 13);
+      // start from alternates
+      K.setLHS(&SigmaB, Xp);
+      K.setRHS(&Sigma0B, X0p);
+      K.setVar(&Sigma00B);
+      K.setData(&Z2, withDrift ? nullptr : &means2);
+      int nsteps = 2 + (int)rr.below(6);
+      for (int sstep = 0; sstep < nsteps; sstep++)
+      {
+        switch (rr.below(9))
+        {
+          case 0: K.setData(rr.chance(0.5) ? &Z : &Z2, mp); break;
+          case 1: K.setLHS(rr.chance(0.5) ? &Sigma : &SigmaB, Xp); break;
+          case 2: K.setRHS(rr.chance(0.5) ? &Sigma0 : &Sigma0B, X0p); break;
+          case 3: K.setVar(rr.chance(0.5) ? &Sigma00 : &Sigma00B); break;
+          case 4: (void)K.getEstimation(); break;
+          case 5: (void)K.getStdv(); break;
+          case 6: (void)K.getVarianceZstar(); if (withDrift) (void)K.getPostMean(); break;
+          case 7: (void)K.getLambda(); break;
+          default: if (withDrift) (void)K.getMu(); else (void)K.getLambda0(); break;
+        }
+      }
+      // final inputs, given in a seeded order
+      int order[4] = {0, 1, 2, 3};
+      for (int i = 3; i > 0; i--) std::swap(order[i], order[rr.below(i + 1)]);
+      for (int q = 0; q < 4; q++)
+      {
+        if (order[q] == 0) K.setLHS(&Sigma, Xp);
+        else if (order[q] == 1) K.setRHS(&Sigma0, X0p);
+        else if (order[q] == 2) K.setVar(&Sigma00);
+        else K.setData(&Z, mp);
+        if (rr.chance(0.3)) (void)K.getEstimation();
+      }
+      if (c) c->count("fault.incremental-updates");
+    }
+    collect(K);
     o.digest = d.hex();
     return o;
   }
@@ -340,6 +452,7 @@ bool admissibleObs(const std::string& k, const WorldSpec& w)
   if (k == "vario-fit") return w.nvar == 1;
   if (k == "gibbs") return w.nvar == 1 && w.nfex == 0 && w.selIn == 0 && w.undefIn == 0;
   if (k == "covmat" || k == "covmat-optim" || k == "covmat-symoptim") return w.nfex == 0;
+  if (k == "kcalc") return w.nvar == 1 && w.nfex == 0 && w.undefIn == 0;
   return true;
 }
 
@@ -674,6 +787,51 @@ void execWorld(const Plan& p, Ctx& c, bool bare, const std::string& prop)
       WorldSpec s = specFromOp(op);
       defineDefaultSpace(ESpaceType::RN, s.ndim);
       buildWorld(W, s);
+      if (!bare && p.knob("route", 0) > 0 && W.model != nullptr && s.nfex == 0)
+      {
+        // incremental = fresh: the same final model reached by another route
+        long route = p.knob("route", 0);
+        Model* m2 = nullptr;
+        int nc = W.model->getCovaNumber();
+        if (route % 3 == 1)
+        {
+          // a leading nugget, filtered, then deleted
+          VectorDouble sl;
+          if (s.nvar == 2) sl = {0.3, 0., 0., 0.3};
+          m2 = Model::createFromParam(ECov::NUGGET, 0., 0.3, 1., VectorDouble(), sl);
+          for (int ic = 0; ic < nc; ic++) m2->addCov(W.model->getCova(ic));
+          m2->setCovaFiltered(0, true);
+          m2->delCova(0);
+        }
+        else if (route % 3 == 2)
+        {
+          // structures added then the last one changed and restored, an extra one appended, filtered and deleted
+          m2 = W.model->clone();
+          m2->addCovFromParam(ECov::EXPONENTIAL, 1.1, 0.2, 1., VectorDouble(), s.nvar == 2 ? VectorDouble{0.2, 0., 0., 0.2} : VectorDouble());
+          m2->setCovaFiltered(nc, true);
+          m2->delCova(nc);
+        }
+        else
+        {
+          // wrong range and sill first, corrected afterwards
+          m2 = W.model->clone();
+          double r0 = m2->getRange(0);
+          double s0 = m2->getSill(0, 0, 0);
+          m2->setRangeIsotropic(0, r0 * 3.);
+          m2->setSill(0, 0, 0, s0 * 2.);
+          { MatrixRectangular tmp = m2->evalCovMatrixOptim(W.dbin, nullptr); (void)tmp; }
+          m2->setRangeIsotropic(0, r0);
+          m2->setSill(0, 0, 0, s0);
+        }
+        if (m2 != nullptr)
+        {
+          if (s.drift > 0) m2->setDriftIRF(s.drift - 1, 0);
+          delete W.model;
+          W.model = m2;
+          c.count("fault.incremental-model-route");
+          c.fp("route" + std::to_string(route % 3));
+        }
+      }
       built = true;
       rb0 = readBack(W);
       c.begin(idx, "world");
@@ -687,8 +845,25 @@ void execWorld(const Plan& p, Ctx& c, bool bare, const std::string& prop)
       c.obs("readback", rb);
       c.begin(idx, "observe." + op.S(0));
       Observed o;
-      try { o = observe(W, op, 0, &c, prop == "C13" && bare); }
+      bool nomemo = !bare && p.knob("nomemo", 0) == 1;
+      if (nomemo)
+      {
+        // result-neutral knob: the neighbourhood memo is dropped before every selection of the observed call
+        g_faults.reset();
+        Fault fm;
+        fm.site = "neigh.nomemo";
+        fm.occ = -1;
+        g_faults.armed.push_back(fm);
+        gstlearn_verif_cb = simkit_fault_cb;
+      }
+      try { o = observe(W, op, 0, &c, prop == "C13" && bare, bare ? 0 : p.knob("kroute", 0)); }
       catch (const std::exception& e) { o.ret = -7; o.digest = std::string("exception:") + e.what(); c.count("probe.observed-call-threw"); }
+      if (nomemo)
+      {
+        gstlearn_verif_cb = nullptr;
+        if (g_faults.fired) c.count("fault.neigh.nomemo", g_faults.fired);
+        g_faults.reset();
+      }
       c.end(idx, o.digest);
       c.obs("result", o.digest);
       c.fp("obs:" + op.S(0) + ":" + std::to_string(o.ret));
@@ -787,7 +962,7 @@ struct WorldWorkload : Workload
     Rng ro = stream(seed, id, run, "ops");
     Op w;
     w.kind = "world";
-    for (int a = 0; a < 16; a++) w.i.push_back(r.range(0, 1000));
+    for (int a = 0; a < 18; a++) w.i.push_back(r.range(0, 1000));
     if (id == "C13") w.i[13] = 1; // data on nodes
     WorldSpec spec = specFromOp(w);
     Op o;
@@ -828,6 +1003,11 @@ struct WorldWorkload : Workload
     p.ops.push_back(w);
     for (long i = 0; i < np; i++) p.ops.push_back(mk());
     p.ops.push_back(o);
+    // knobs of the perturbed sibling (B): model built by another route, neighbourhood memo dropped,
+    // KrigingCalcul reached incrementally
+    if (r.chance(0.35)) p.setKnob("route", r.range(1, 30));
+    if (r.chance(0.35)) p.setKnob("nomemo", 1);
+    p.setKnob("kroute", r.range(1, 100000));
     return p;
   }
   void execute(const Plan&, Ctx&) override {}
@@ -870,7 +1050,7 @@ struct WorldWorkload : Workload
       x.detail = "after " + perts + ": bare " + oa["result"] + " perturbed " + ob["result"];
       rr.viol.push_back(x);
     }
-    else if (anyPert) { rr.nontrivial = true; rr.counters["probe.siblings-agree"]++; }
+    else if (anyPert || p.knob("route", 0) > 0 || p.knob("nomemo", 0) == 1 || obsKind == "kcalc") { rr.nontrivial = true; rr.counters["probe.siblings-agree"]++; }
     return rr;
   }
 };
